@@ -28,7 +28,7 @@ PLANS = {
     "C03": plan(shards(20, 300)),
     "C04": plan(shards(20, 300, mode="light", n=10), shards(20, 300, mode="actor", n=3), shards(25, 300, mode="stack", n=3)),
     "C05": plan(shards(20, 300)),
-    "C06": plan(shards(20, 360, mode="images", n=14), shards(15, 240, mode="kill", n=2), tool("memcheck.sh", ["C06"], 3000)),
+    "C06": plan(shards(20, 360, mode="images", n=13), shards(15, 240, mode="kill", n=2), shards(20, 300, mode="upgrade", n=1), tool("memcheck.sh", ["C06"], 3000)),
     "C07": plan(shards(15, 240)),
     "C08": plan(shards(20, 300)),
     "C09": plan(shards(20, 300), tool("miri.sh", ["c09"], 3000), tool("memcheck.sh", ["C09"], 3000)),
